@@ -2,6 +2,7 @@ package props
 
 import (
 	"fmt"
+	"math"
 	"strings"
 	"testing"
 
@@ -18,7 +19,8 @@ import (
 // C11 — RFC 7386 output means the same as the merge diff.
 // C12 — RFC 7386 input is applied as the RFC specifies.
 
-var c11OptSets = []string{"merge", "set+merge", "mset+merge"}
+// The binaries always append Precision(0) to the option list.
+var c11OptSets = []string{"merge", "set+merge", "mset+merge", "merge+prec:0", "set+merge+prec:0", "mset+merge+prec:0"}
 
 func mergePatchClasses(m val.V) (cls []string) {
 	var walk func(v val.V, depth int)
@@ -144,6 +146,26 @@ func genC11(t *rapid.T) PairCase {
 	}
 	if gen.Chance(t, "pathTwins", 10) {
 		a, b = gen.PathTwins(t, a, b, p)
+	}
+	if gen.Chance(t, "longTwins", 4) {
+		// two long strings with a long common prefix, as array members
+		n := gen.Pick(t, "prefixLen", []int{57, 250, 1017, 1100, 4097, 70000})
+		pre := strings.Repeat("p", n)
+		var x, y val.V = pre + "1", pre + "2"
+		if gen.Chance(t, "inObject", 40) {
+			x, y = map[string]val.V{"s": x}, map[string]val.V{"s": y}
+		}
+		la, lb := []val.V{x, "other"}, []val.V{y, "other"}
+		if gen.Chance(t, "dupCounts", 30) {
+			la, lb = []val.V{x, x, "other"}, []val.V{x, "other", "other"}
+		}
+		if ao, ok := a.(map[string]val.V); ok {
+			if bo, ok := b.(map[string]val.V); ok {
+				ao["long"], bo["long"] = la, lb
+			}
+		} else {
+			a, b = la, lb
+		}
 	}
 	return PairCase{A: val.JSON(a), B: val.JSON(b), Opts: opts}
 }
@@ -527,6 +549,9 @@ type MergeCLICase struct {
 	Yaml   bool   `json:"yaml"`
 	Stdin  bool   `json:"stdin"`
 	Bin    string `json:"bin"`
+	// JdYaml: with -yaml the target is written by jd's own Yaml() (block
+	// scalars for multi-line strings) instead of the harness's emitter.
+	JdYaml bool `json:"jd_yaml,omitempty"`
 }
 
 func checkC12CLI(c MergeCLICase, r *rec.Rec) error {
@@ -559,6 +584,9 @@ func checkC12CLI(c MergeCLICase, r *rec.Rec) error {
 	if c.Yaml {
 		args = append(args, "-yaml")
 		targetText = ref.YAMLEmit(tv)
+		if c.JdYaml {
+			targetText = jdx.NodeText(c.Target).Yaml()
+		}
 	}
 	var res CLIResult
 	if c.Stdin {
@@ -614,6 +642,13 @@ func checkC12CLI(c MergeCLICase, r *rec.Rec) error {
 	return nil
 }
 
+// hostileMergeValues: member values on which JSON and YAML readers disagree,
+// and text a formatting verb would mangle.
+var hostileMergeValues = []val.V{
+	"100%", "%d %s %v", "\u007f", "\u0085", "a\u0085b", "\ufffe", 9223372036854775808.0, 18446744073709549568.0,
+	"\U0001f600", "/", "</script>", "%!(EXTRA)", math.Copysign(0, -1), 1e300, "line\n", "two\nlines\n", "nbsp\u00a0",
+}
+
 func genC12CLI(t *rapid.T) MergeCLICase {
 	p := gen.Profile{MaxDepth: 3, NastyKeys: gen.Chance(t, "nasty", 40), Payload: true, Floats: gen.Chance(t, "floats", 40)}
 	var target val.V
@@ -622,18 +657,18 @@ func genC12CLI(t *rapid.T) MergeCLICase {
 	} else {
 		target = gen.Doc(t, p)
 	}
+	if to, ok := target.(map[string]val.V); ok && gen.Chance(t, "multiLineMember", 30) {
+		to[gen.Pick(t, "mlk", []string{"zz", "text", "a"})] = gen.Pick(t, "mlv", []val.V{"line\n", "two\nlines\n", "keep\n\n", "nbsp\u00a0", " lead", "x\n "})
+	}
 	patch := genMergeDoc(t, target)
 	if po, ok := patch.(map[string]val.V); ok && gen.Chance(t, "payloadMember", 50) {
 		// values on which JSON and YAML readers disagree, and text a
 		// formatting verb would mangle
-		po[gen.Pick(t, "pk", []string{"p", "100%", "a"})] = gen.Pick(t, "pv", []val.V{
-			"100%", "%d %s %v", "\u007f", "\u0085", "a\u0085b", "\ufffe", 9223372036854775808.0, 18446744073709549568.0,
-			"\U0001f600", "/", "</script>", "%!(EXTRA)", -0.0, 1e300,
-		})
+		po[gen.Pick(t, "pk", []string{"p", "100%", "a"})] = gen.Pick(t, "pv", hostileMergeValues)
 	}
 	return MergeCLICase{
 		Target: val.JSON(target), Patch: val.JSON(patch),
-		Yaml: gen.Chance(t, "yaml", 35), Stdin: gen.Chance(t, "stdin", 20),
+		Yaml: gen.Chance(t, "yaml", 35), Stdin: gen.Chance(t, "stdin", 20), JdYaml: gen.Chance(t, "jdYaml", 50),
 		Bin: gen.Pick(t, "bin", []string{"jd-v2", "jd-v2", "jd-top"}),
 	}
 }
